@@ -87,7 +87,7 @@ def build_classes(kinds, se):
         elif k == "E":
             c = type(name, (xo.Struct,), dict(_depends_on=[]))
         elif k == "A":
-            c = classes[se[i][0][0]][2]
+            c = classes[se[i][0][0]][2 + i]  # distinct extents: two array nodes over the same item must not share a class name
         elif k == "U":
             c = type(name, (xo.UnionRef,), dict(_reftypes=[classes[j] for j, _ in se[i]]))
         classes.append(c)
